@@ -1,3 +1,147 @@
 import WireV.Cmd
+import WireV.Generated.Tables
+import WireP.Lemmas.CmdProofsDiff
+/-! # C17 — `wire gen` / `wire diff`: exit statuses and what is written
+
+Model: `WireV.genExec`, `WireV.diffExec` (cmd/wire/main.go) over an abstract file system
+(`fsGet`/`fsPut`; paths and contents are naturals, content `0` = "no Wire output for this package").
+`writeOk`, `headerOk` and the analysis result `load` are parameters.  The table theorems at the end
+are closed by `decide` over the regenerated `WireV.Generated` and tie the model's constants to the
+`return` statements of the source. -/
 namespace WireP.C17
+open WireV
+
+/-! ## `gen` -/
+
+/-- `gen` exits 0 iff no package has errors and every non-empty output could be written
+    (also true for `outs = []`: status 0) -/
+theorem gen_exit (outs : List PkgOut) (writeOk : Nat → Bool) (fs : FS) :
+    (genExec true (.ok outs) writeOk fs).2 = 0 ↔
+      ∀ o ∈ outs, o.errs = false ∧ (o.content ≠ 0 → writeOk o.outPath = true) :=
+  WireP.CmdProofs.gen_exit outs writeOk fs
+
+theorem gen_exit_nil (writeOk : Nat → Bool) (fs : FS) : genExec true (.ok []) writeOk fs = (fs, 0) :=
+  WireP.CmdProofs.genExec_nil writeOk fs
+
+theorem gen_exit_loadErr (h : Bool) (writeOk : Nat → Bool) (fs : FS) : genExec h .loadErr writeOk fs = (fs, 1) :=
+  WireP.CmdProofs.genExec_loadErr h writeOk fs
+
+theorem gen_exit_header (load : LoadRes) (writeOk : Nat → Bool) (fs : FS) : genExec false load writeOk fs = (fs, 1) :=
+  WireP.CmdProofs.genExec_header load writeOk fs
+
+/-- `gen` only ever exits 0 or 1 -/
+theorem gen_exit_range (h : Bool) (load : LoadRes) (writeOk : Nat → Bool) (fs : FS) :
+    (genExec h load writeOk fs).2 = 0 ∨ (genExec h load writeOk fs).2 = 1 :=
+  WireP.CmdProofs.genExec_status_le h load writeOk fs
+
+/-- only `<prefix>wire_gen.go` of packages with output is ever created or modified -/
+theorem gen_writes_only (h : Bool) (load : LoadRes) (writeOk : Nat → Bool) (fs : FS) (p : Nat) :
+    fsGet (genExec h load writeOk fs).1 p ≠ fsGet fs p →
+      h = true ∧ ∃ outs, load = .ok outs ∧ ∃ o ∈ outs, o.outPath = p ∧ o.content ≠ 0 ∧ writeOk p = true :=
+  WireP.CmdProofs.gen_writes_only h load writeOk fs p
+
+/-- a package whose analysis fails (no content) keeps its existing file -/
+theorem gen_failed_untouched (h : Bool) (outs : List PkgOut) (writeOk : Nat → Bool) (fs : FS) (o : PkgOut) :
+    o ∈ outs → o.content = 0 → (∀ o' ∈ outs, o'.outPath = o.outPath → o'.content = 0) →
+      fsGet (genExec h (.ok outs) writeOk fs).1 o.outPath = fsGet fs o.outPath := fun _ _ hall =>
+  WireP.CmdProofs.gen_failed_untouched h outs writeOk fs o.outPath (fun o' ho' hp => Or.inl (hall o' ho' hp))
+
+/-- a failing package does not prevent output for the others -/
+theorem gen_isolation (outs : List PkgOut) (writeOk : Nat → Bool) (fs : FS) (o : PkgOut) :
+    (outs.map (·.outPath)).Nodup → o ∈ outs → o.content ≠ 0 → writeOk o.outPath = true →
+      fsGet (genExec true (.ok outs) writeOk fs).1 o.outPath = some o.content :=
+  WireP.CmdProofs.gen_isolation outs writeOk fs o
+
+/-- the final file system, pointwise, when output paths are distinct -/
+theorem gen_final_fs (outs : List PkgOut) (writeOk : Nat → Bool) (fs : FS) :
+    (outs.map (·.outPath)).Nodup →
+    (∀ o ∈ outs, o.content ≠ 0 → writeOk o.outPath = true →
+        fsGet (genExec true (.ok outs) writeOk fs).1 o.outPath = some o.content) ∧
+    (∀ o ∈ outs, o.content = 0 ∨ writeOk o.outPath = false →
+        fsGet (genExec true (.ok outs) writeOk fs).1 o.outPath = fsGet fs o.outPath) ∧
+    (∀ p, p ∉ outs.map (·.outPath) → fsGet (genExec true (.ok outs) writeOk fs).1 p = fsGet fs p) :=
+  WireP.CmdProofs.gen_final_fs outs writeOk fs
+
+/-! ## `diff` (read-only by construction: `diffExec` returns no file system) -/
+
+theorem diff_exit_two (hs : Nat) (outs : List PkgOut) (fs : FS) :
+    diffExec hs true (.ok outs) fs = 2 ↔ ∃ o ∈ outs, o.errs = true :=
+  WireP.CmdProofs.diff_exit_two hs outs fs
+
+theorem diff_exit_zero (hs : Nat) (outs : List PkgOut) (fs : FS) :
+    diffExec hs true (.ok outs) fs = 0 ↔
+      (∀ o ∈ outs, o.errs = false) ∧ ∀ o ∈ outs, o.content ≠ 0 → fsGet fs o.outPath = some o.content :=
+  WireP.CmdProofs.diff_exit_zero hs outs fs
+
+/-- status 1 means exactly: no errors, and some generated file differs (absent file = differs) -/
+theorem diff_exit_one (hs : Nat) (outs : List PkgOut) (fs : FS) :
+    diffExec hs true (.ok outs) fs = 1 ↔
+      (∀ o ∈ outs, o.errs = false) ∧ ∃ o ∈ outs, o.content ≠ 0 ∧ fsGet fs o.outPath ≠ some o.content :=
+  WireP.CmdProofs.diff_exit_one hs outs fs
+
+theorem diff_exit_spec (hs : Nat) (outs : List PkgOut) (fs : FS) :
+    (diffExec hs true (.ok outs) fs = 2 ↔ ∃ o ∈ outs, o.errs = true) ∧
+    (diffExec hs true (.ok outs) fs = 0 ↔
+      (∀ o ∈ outs, o.errs = false) ∧ ∀ o ∈ outs, o.content ≠ 0 → fsGet fs o.outPath = some o.content) ∧
+    (diffExec hs true (.ok outs) fs = 1 ↔
+      (∀ o ∈ outs, o.errs = false) ∧ ∃ o ∈ outs, o.content ≠ 0 ∧ fsGet fs o.outPath ≠ some o.content) :=
+  ⟨diff_exit_two hs outs fs, diff_exit_zero hs outs fs, diff_exit_one hs outs fs⟩
+
+theorem diff_exit_loadErr (hs : Nat) (fs : FS) : diffExec hs true .loadErr fs = 2 :=
+  WireP.CmdProofs.diffExec_loadErr hs fs
+
+theorem diff_exit_header (hs : Nat) (load : LoadRes) (fs : FS) : diffExec hs false load fs = hs :=
+  WireP.CmdProofs.diffExec_header hs load fs
+
+theorem diff_exit_range (hs : Nat) (load : LoadRes) (fs : FS) :
+    diffExec hs true load fs = 0 ∨ diffExec hs true load fs = 1 ∨ diffExec hs true load fs = 2 :=
+  WireP.CmdProofs.diffExec_status hs load fs
+
+/-! ## the source: the model's constants are what the commands return -/
+
+theorem diff_header_status : Generated.diffHeaderStatus = 2 := by decide
+theorem gen_header_status : Generated.genHeaderStatus = 1 := by decide
+
+theorem diff_returns_table : Generated.diffReturns =
+    [("err != nil", 2), ("err != nil", 2), ("len(errs) > 0", 2), ("len(outs) == 0", 0), ("!success", 2),
+     ("hadDiff", 1), ("", 0)] := by decide
+
+theorem gen_returns_table : Generated.genReturns =
+    [("err != nil", 1), ("err != nil", 1), ("len(errs) > 0", 1), ("len(outs) == 0", 0), ("!success", 1), ("", 0)] := by
+  decide
+
+theorem check_returns_table : Generated.checkReturns = [("err != nil", 1), ("len(errs) > 0", 1), ("", 0)] := by decide
+
+theorem show_returns_table : Generated.showReturns = [("err != nil", 1), ("len(errs) > 0", 1), ("", 0)] := by decide
+
+/-- `diff` returns 1 for nothing but a difference, and every trouble is 2 -/
+theorem diff_one_only_hadDiff :
+    (Generated.diffReturns.filter (fun r => r.2 == 1)).map (·.1) = ["hadDiff"] ∧
+    (Generated.diffReturns.filter (fun r => r.1 != "hadDiff" && r.1 != "" && r.1 != "len(outs) == 0")).all (fun r => r.2 == 2) = true := by
+  decide
+
+/-- with the header status of the source, `diff` with an unreadable header exits 2 -/
+theorem diff_header_exit (load : LoadRes) (fs : FS) : diffExec Generated.diffHeaderStatus false load fs = 2 := by
+  rw [diff_exit_header]; exact diff_header_status
+
+/-! ## non-vacuity: three packages — one fails analysis, one generates, one cannot be written -/
+
+private def outs3 : List PkgOut := [⟨10, true, 0⟩, ⟨20, false, 7⟩, ⟨30, false, 8⟩]
+private def w3 : Nat → Bool := fun p => p != 30
+private def fs3 : FS := [(10, 1), (30, 3), (99, 9)]
+
+example : (outs3.map (·.outPath)).Nodup := by decide
+example : genExec true (.ok outs3) w3 fs3 = ([(20, 7), (10, 1), (30, 3), (99, 9)], 1) := by decide
+/-- the failing package keeps its file, the good one is written, the unwritable one keeps its file -/
+example : fsGet (genExec true (.ok outs3) w3 fs3).1 10 = some 1
+    ∧ fsGet (genExec true (.ok outs3) w3 fs3).1 20 = some 7
+    ∧ fsGet (genExec true (.ok outs3) w3 fs3).1 30 = some 3 := by decide
+/-- an instance of the right-hand side of `gen_exit` being true on a non-trivial list -/
+example : (genExec true (.ok [⟨10, false, 0⟩, ⟨20, false, 7⟩]) (fun _ => true) fs3).2 = 0 := by decide
+example : diffExec 2 true (.ok outs3) fs3 = 2 := by decide
+example : diffExec 2 true (.ok [⟨20, false, 7⟩, ⟨30, false, 8⟩]) fs3 = 1 := by decide
+example : diffExec 2 true (.ok [⟨20, false, 7⟩, ⟨30, false, 8⟩]) [(30, 8), (20, 7)] = 0 := by decide
+/-- without distinct paths the last write wins: `gen_isolation` needs `Nodup` -/
+example : fsGet (genExec true (.ok [⟨20, false, 7⟩, ⟨20, false, 8⟩]) (fun _ => true) []).1 20 = some 8 := by decide
+
 end WireP.C17
